@@ -85,7 +85,7 @@ func GenDPlan(r *common.Rand, depth int, wild bool) *DPlan {
 	sanitize(root)
 	p := &DPlan{Root: root, Defer: map[*gplan.Field]int{}, NoFetch: map[int]bool{}, Valid: !wild}
 	d := &dgen{r: r, p: p, home: map[int][]string{}, cutAt: map[int]int{}, wild: wild}
-	d.walk(root, 0, nil, -1)
+	d.walk(root, 0, nil, -1, false)
 	sort.Slice(p.Descs, func(i, j int) bool { return p.Descs[i].ID < p.Descs[j].ID })
 	return p
 }
@@ -99,7 +99,7 @@ func (d *dgen) desc(id int) *Desc {
 	return nil
 }
 
-func (d *dgen) walk(n *gplan.Node, ctx int, names []string, cut int) {
+func (d *dgen) walk(n *gplan.Node, ctx int, names []string, cut int, frozen bool) {
 	switch n.Kind {
 	case gplan.KArr:
 		here := append(append([]string{}, names...), n.Path...)
@@ -107,12 +107,14 @@ func (d *dgen) walk(n *gplan.Node, ctx int, names []string, cut int) {
 		if c < 0 {
 			c = len(here)
 		}
-		d.walk(n.Item, ctx, here, c)
+		// inside a list of lists the renderer cannot seek: fields keep the enclosing mark
+		d.walk(n.Item, ctx, here, c, frozen || (n.Item.Kind == gplan.KArr && !d.wild))
 	case gplan.KObj:
 		here := append(append([]string{}, names...), n.Path...)
 		for _, f := range n.Fields {
 			id := ctx
 			switch {
+			case frozen:
 			case d.wild && d.r.Chance(1, 3):
 				if d.next > 0 && d.r.Chance(1, 2) {
 					id = 1 + d.r.Pick(d.next)
@@ -138,7 +140,7 @@ func (d *dgen) walk(n *gplan.Node, ctx int, names []string, cut int) {
 			if id != 0 {
 				d.p.Defer[f] = id
 			}
-			d.walk(f.Value, id, here, cut)
+			d.walk(f.Value, id, here, cut, frozen)
 		}
 	}
 }
